@@ -326,7 +326,9 @@ def rekeyRec : List Int → List PhaseRec → List PhaseRec
 
 /-- phase-list part of `CrystalMap.__init__` on full phase records; `ni` is the phase
 `PhaseList.add_not_indexed` creates -/
-def reconcileRec (ni : PhaseRec) (ids : List Int) (pl : List PhaseRec) : Option (List PhaseRec) :=
+def reconcileRec (ni : PhaseRec) (ids : List Int) (pl0 : List PhaseRec) : Option (List PhaseRec) :=
+  -- `if -1 in phase_list.ids: del phase_list[-1]`: "not_indexed" is (re-)created below from the data
+  let pl := pl0.filter (·.id != -1)
   let u0 := uniqSorted ids
   let inc := u0.head? == some (-1)
   let u := if inc then u0.tail else u0
